@@ -166,3 +166,39 @@ Theorem C04_source_build_role_links_enforcer : forall k s,
   (fst (build_role_links k s), match snd (build_role_links k s) with None => ok (VL []) | Some c => verr c end).
 Proof. exact LoadTie.tie_build_role_links. Qed.
 Print Assumptions C04_source_build_role_links_enforcer.
+
+(* The incremental maintenance, of the SOURCE: the five grouping wrappers of casbin/management_enforcer.py (the internal call, the
+   test `self.auto_build_role_links and <result>`, self._build_incremental_role_links, the returned value) are re-translated on
+   every run (translators/grouping.py, GrpLang.v; the one-list / separate-arguments test of the single-rule wrappers is checked to
+   have two identical branches; CoreEnforcer._build_incremental_role_links and Policy.build_incremental_role_links are compared
+   with their recognised bodies); GrpTie.v proves that they compute g_add / g_add_many / g_remove / g_remove_many /
+   g_remove_filtered - the grouping steps of `run`, through which C04_history_keeps_links_in_sync is proved.  With
+   InternalTie (the internal API), PolicyTie (the rule store), LinkTie (Assertion.build_*_role_links) and LoadTie (rebuild and
+   reload) every step of `run` that touches grouping rules or role links is now tied to regenerated source. *)
+From PyCasbin Require GrpLang GrpTie.
+From PyCasbinGen Require GroupingGen.
+
+Theorem C04_source_add_named_grouping_policy : forall k s pt r,
+  GrpLang.gwrapper k pt r [] 0 [] GroupingGen.add_named_grouping_policy_gen s = Some (g_add k s pt r).
+Proof. exact GrpTie.tie_g_add. Qed.
+Print Assumptions C04_source_add_named_grouping_policy.
+
+Theorem C04_source_add_named_grouping_policies : forall k s pt rs,
+  GrpLang.gwrapper k pt [] rs 0 [] GroupingGen.add_named_grouping_policies_gen s = Some (g_add_many k s pt rs).
+Proof. exact GrpTie.tie_g_add_many. Qed.
+Print Assumptions C04_source_add_named_grouping_policies.
+
+Theorem C04_source_remove_named_grouping_policy : forall k s pt r,
+  GrpLang.gwrapper k pt r [] 0 [] GroupingGen.remove_named_grouping_policy_gen s = Some (g_remove k s pt r).
+Proof. exact GrpTie.tie_g_remove. Qed.
+Print Assumptions C04_source_remove_named_grouping_policy.
+
+Theorem C04_source_remove_named_grouping_policies : forall k s pt rs,
+  GrpLang.gwrapper k pt [] rs 0 [] GroupingGen.remove_named_grouping_policies_gen s = Some (g_remove_many k s pt rs).
+Proof. exact GrpTie.tie_g_remove_many. Qed.
+Print Assumptions C04_source_remove_named_grouping_policies.
+
+Theorem C04_source_remove_filtered_named_grouping_policy : forall k s pt i vs,
+  GrpLang.gwrapper k pt [] [] i vs GroupingGen.remove_filtered_named_grouping_policy_gen s = Some (g_remove_filtered k s pt i vs).
+Proof. exact GrpTie.tie_g_remove_filtered. Qed.
+Print Assumptions C04_source_remove_filtered_named_grouping_policy.
